@@ -37,8 +37,11 @@ def prepare(spec, ctx):
             if v not in zenv:                      # a variable the point does not supply
                 zenv[v] = z3.Real("unsupplied_" + v)
         ctx.zenv = zenv
-        ctx.ref, ctx.indom = orc.denote(d, zenv)
         ctx.vars = rt.variables_of(d)
+        if spec.get("may_reject"):
+            ctx.ref, ctx.indom = None, z3.BoolVal(True)      # (C17 only: an unconstrained parameter, no reference value is used)
+        else:
+            ctx.ref, ctx.indom = orc.denote(d, zenv)
 
 
 def assumption(a, consts):
